@@ -13,7 +13,26 @@ open Cnl Cnl.Drv
 def dispatch (table : String) (toks : List String) (res : String) : Option Verdict :=
   match table with
   | "CS" => checkCS toks
+  | "C01" => checkC01 toks res
+  | "C02" => checkC02 toks res
+  | "C03" => checkC03 toks res
+  | "C04" => checkC04 toks res
+  | "C05" => checkC05 toks res
+  | "C06" => checkC06 toks res
+  | "C07" => checkC07 toks res
+  | "C08" => checkC08 toks res
+  | "C09" => checkC09 toks res
+  | "C10" => checkC10 toks res
+  | "C11" => checkC11 toks res
   | "C12" => checkC12 toks res
+  | "C13" => checkC13 toks res
+  | "C14" => checkC14 toks res
+  | "C15" => checkC15 toks res
+  | "C16" => checkC16 toks res
+  | "C17" => checkC17 toks res
+  | "C18" => checkC18 toks res
+  | "C19" => checkC19 toks res
+  | "C20" => checkC20 toks res
   | _ => none
 
 structure DAcc where
